@@ -7,6 +7,7 @@ every order with it is equivalent to agreement of every pair of orders."""
 import z3, itertools
 from .pipeline import *
 from mirsym.models import val_eq
+PAST=1000000000
 
 class Determinism(PipelineBase):
     name='C13.determinism'
@@ -160,4 +161,73 @@ class HistoryIndependence(PipelineBase):
         if is_sample(run,self.seed,8):
             r,m=run.check_sat(z3.BoolVal(True))
             if r==z3.sat: rec['sample']={'scenario':mk(m),'expect':'ok' if v(o2)=='ok' else 'err','confirm':{'alone_differs':False}}
+        return rec
+
+class RepeatedFailures(PipelineBase):
+    """a long history: n verifications that FAIL (inside a sub-layout, at the owner signature, at a rule) in one process, then a
+    valid layout B - with and without a sub-layout - must get the verdict it gets in a fresh process.  Whatever a failing call
+    leaves behind (counters, caches, guards that an early return skipped) accumulates over the n calls."""
+    name='C13.verdict_after_many_failed_verifications'
+    KINDS=['sublayout_expired','sublayout_link_missing','owner_signature_bad','rule_fails']
+    def __init__(self,ns=(1,10),**kw):
+        PipelineBase.__init__(self,**kw); self.ns=list(ns)
+        self.bounds={'history':'n in %s failing calls of in_toto_verify, all of one kind: %s'%(self.ns,', '.join(self.KINDS)),'then':'a valid layout: one step answered by a link, or one step answered by a validly signed sub-layout; free digest byte',
+                     'statics':'shared by all calls of a run (thread-locals, statics, OnceLock ...)','hash_map_iteration':'insertion order'}
+        self.hash_order='fixed'
+        self.witnesses=['ok_after_history']
+    def setup(self,eng,tier):
+        PipelineBase.setup(self,eng,tier)
+        body=self.entry_body
+        def seq(run,args):
+            aAs,aB=args
+            run.ghost.pop('statics',None)
+            for aA in aAs:
+                try: eng.call_fn(run,body,aA)
+                except Panic as p: return ('history_panic',p.site)
+            try: return ('ret',eng.call_fn(run,body,aB))
+            except Panic as p: return ('panic',p.site)
+        self.seq=seq
+    def entry(self,eng): return self.seq
+    def scen_A(self,kind):
+        F0=0; OWN=2
+        if kind in ('sublayout_expired','sublayout_link_missing'):
+            inner=LayoutD([F0],[StepD('i0',1,[F0])]) if kind=='sublayout_link_missing' else LayoutD([],[],expires=PAST)
+            dirs={():[FileD('d',F0,BlockD('layout',inner,[SigD(F0,F0)]))],(('d',F0),):[]}
+            return BlockD('layout',LayoutD([F0],[StepD('d',1,[F0])],readme='A'),[SigD(OWN,OWN)]),[(OWN,OWN)],dirs
+        if kind=='owner_signature_bad':
+            return BlockD('layout',LayoutD([],[],readme='A'),[SigD(OWN,OWN,False,True)]),[(OWN,OWN)],{():[]}
+        st=StepD('s0',1,[F0]); st.exp_prod=[self.b.rule('Disallow','*')]; st.exp_prod_json=[['DISALLOW','*']]
+        return BlockD('layout',LayoutD([F0],[st],readme='A'),[SigD(OWN,OWN)]),[(OWN,OWN)],{():[FileD('s0',F0,BlockD('link',LinkD('s0',{},{'p':[1]}),[SigD(F0,F0)]))]}
+    def scen_B(self,sub):
+        F0=0; OWN=2; d=z3.BitVec('dB',8)
+        if sub:
+            inner=LayoutD([F0],[StepD('i0',1,[F0])])
+            dirs={():[FileD('d',F0,BlockD('layout',inner,[SigD(F0,F0)]))],(('d',F0),):[FileD('i0',F0,BlockD('link',LinkD('i0',{},{'p':[d]}),[SigD(F0,F0)]))]}
+            return BlockD('layout',LayoutD([F0],[StepD('d',1,[F0])],readme='B'),[SigD(OWN,OWN)]),[(OWN,OWN)],dirs
+        return BlockD('layout',LayoutD([F0],[StepD('s0',1,[F0])],readme='B'),[SigD(OWN,OWN)]),[(OWN,OWN)],{():[FileD('s0',F0,BlockD('link',LinkD('s0',{},{'p':[d]}),[SigD(F0,F0)]))]}
+    def mk_args(self,run):
+        kind=self.KINDS[run.pick(len(self.KINDS),'history_kind')]; n=self.ns[run.pick(len(self.ns),'history_length')] if len(self.ns)>1 else self.ns[0]
+        sub=bool(run.pick(2,'B_has_sublayout'))
+        A=self.scen_A(kind); B=self.scen_B(sub)
+        self.link_dir='linksA'; aAs=[self.install(run,*A) for _ in range(n)]; dA=dict(run.ghost['dirs'])
+        self.link_dir='linksB'; aB=self.install(run,*B); run.ghost['dirs'].update(dA)
+        self.link_dir='links'
+        return (aAs,aB),{'A':A,'B':B,'n':n,'kind':kind,'sub':sub}
+    def check(self,run,out,g):
+        kind=out[1][0] if out[0]=='ret' else 'panic'
+        rec=self.new_rec(kind); rec['obl']=1
+        def mk(m):
+            self.link_dir='links'
+            first=conc_scenario(m,g['A'][0],g['A'][1],g['A'][2],1700000000,repeat=1); second=conc_scenario(m,g['B'][0],g['B'][1],g['B'][2],1700000000,repeat=1)
+            return {'kind':'verify_sequence','first':first,'second':second,'sleep_ms':0,'also_alone':True,'repeat_first':g['n']}
+        r,m=run.check_sat(z3.BoolVal(True))
+        where='%d failed verifications (%s) then a valid layout %s a sub-layout'%(g['n'],g['kind'],'with' if g['sub'] else 'without')
+        if out[0]!='ret' or kind in ('history_panic','panic'):
+            rec['viol']={'kind':'panic','known_key':None,'scenario':mk(m),'predicted':'panic','what':'in_toto_verify panics (%s)'%where}; return rec
+        oc=outcome_of(out[1])
+        rec['outcome']=oc
+        if oc!='ok':
+            rec['viol']={'kind':'verdict_depends_on_earlier_verifications','known_key':None,'scenario':mk(m),'predicted':{'not':'ok'},'confirm':{'alone_differs':True},'what':'a valid layout is rejected after %s'%where}; return rec
+        self.wit(run,rec,'ok_after_history')
+        rec['sample']={'scenario':mk(m),'expect':'ok','confirm':{'alone_differs':False}}
         return rec
